@@ -64,6 +64,7 @@ DRIVERS = {  # binary -> (sources in harness/, extra flags, link with the librar
     "drv_misc": (["drv_misc.cpp"], [], True),
     "drv_sched": (["drv_sched.cpp"], [], True),
     "drv_static": (["drv_static.cpp"], [], True),
+    "drv_containers": (["drv_containers.cpp"], [], True),
 }
 
 
@@ -352,6 +353,8 @@ def check_api(prop, tier, deadline):
         runs.append(d)
         shutil.rmtree(d["_scratch"], ignore_errors=True)
     rep.coverage = cov_from_api(runs)
+    if prop in ("C08", "C09", "C11"):
+        cc = absorb_containers(rep, prop, tier); rep.coverage["standalone_containers"] = cc; rep.coverage["evaluations"] += cc["states"]
     if sizes:
         rep.coverage["in_limit_sizes_at_field_boundaries"] = {"cases": sizes["single_cases"], "rule": "C17's single-limit builder: every quantity at 127|128 / 32767|32768 (signed boundary of its field), L-1 and L; saved, reloaded, compared"}
     if limits:
@@ -451,6 +454,7 @@ def check_file(prop, tier, deadline):
                                 "(256 exponents x 2 signs x 4 mantissas) as x, y, z, residual (4 rotations), analog sample, float parameter, event time and header rate; each file loaded, "
                                 "compared bit-exactly with the reference decode, re-saved and the re-saved element bytes compared")
         rep.coverage["patterns"] = {"bytes": 256, "int16": 65536, "float": 2048}
+        cc = absorb_containers(rep, "C12", tier); rep.coverage["standalone_header"] = cc
     rep.assumptions = ["trusted base: harness/genfile.h (encoder) and harness/refc3d.h (decoder), written from the C3D user guide, bound to each other (decode(encode(x)) on every case) and to the shipped vendor files"]
     return rep.finish()
 
@@ -514,6 +518,41 @@ def check_c16(tier, deadline):
 
 
 # ---------------------------------------------------------------------------------------------- C17 / setter table
+CONTAINER_PREFIXES = {   # which property a stand-alone container finding belongs to
+    "C11": ("points/pos", "points/name", "points/size", "points/outcome", "subframe/pos", "subframe/name", "subframe/size", "subframe/outcome", "analogs/", "group/pos", "group/name/"),
+    "C09": ("group/size", "group/lock_flag", "group/name", "group/description", "parameters/group/"),
+    "C08": ("frame/",),
+    "C12": ("header/",),
+    "C14": ("points/gap_element_not_zero", "subframe/gap_element_not_zero"),
+    "C13": ("crash/containers",),
+}
+
+
+def run_containers(tier, flavour="plain"):
+    bdir = build(flavour, ("drv_containers",))
+    sc = scratch_dir("containers"); out = os.path.join(sc, "out.json")
+    env = dict(os.environ); env["MALLOC_PERTURB_"] = "170"   # freshly allocated memory is never zero by luck
+    if flavour == "asan":
+        env.update(ASAN_ENV); env["ASAN_OPTIONS"] = env["ASAN_OPTIONS"].replace("halt_on_error=0", "halt_on_error=1")
+    r = sh([os.path.join(bdir, "drv_containers"), "--depth", "4" if tier == "quick" else "5", "--out", out], env=env, capture_output=True, text=True)
+    if not os.path.exists(out):
+        log("driver failed: drv_containers", r.stdout[-800:], r.stderr[-800:]); raise SystemExit(3)
+    d = json.load(open(out)); d["_stderr"] = r.stderr[-1500:]; shutil.rmtree(sc, ignore_errors=True)
+    return d
+
+
+def absorb_containers(rep, prop, tier, flavour="plain"):
+    """stand-alone use of Points / SubFrame / Analogs / Frame / Group / Parameters / Header against a reference model (drv_containers)"""
+    d = run_containers(tier, flavour)
+    for v in d["violations"]:
+        if any(v["sig"].startswith(px) for px in CONTAINER_PREFIXES.get(prop, ())) and not (prop == "C09" and v["sig"].startswith("group/name/")):
+            rep.add("standalone/" + v["sig"], v["detail"] + (" :: " + d["_stderr"][-400:] if v["sig"].startswith("crash") else ""), {"engine": "containers", "tier": tier, "flavour": flavour, "input": v["history"]}, v["count"])
+    log(f"[containers] {flavour}: states={d['states']} transitions={d['transitions']} lookups={d['lookups']} depth={d['depth']}")
+    return {"states": d["states"], "transitions": d["transitions"], "look_ups": d["lookups"], "depth": d["depth"],
+            "rule": "Points, SubFrame, Analogs, Frame, Group, Parameters and Header used stand-alone (no c3d): BFS over append / indexed set (inside, at size, past the end) / rename / edit / copy ops (Points, SubFrame), "
+                    "add-replace / lock / rename ops (Group), append-or-merge (Parameters), every order of the setters (Header); after every op everything is read back by position and by name and compared with a std::vector model"}
+
+
 def run_misc(mode, tier, extra=()):
     bdir = build("plain", ("drv_misc",))
     sc = scratch_dir(mode); out = os.path.join(sc, "out.json")
@@ -725,6 +764,7 @@ def check_c13(tier, deadline):
     rep.coverage["files_under_asan"] = {k: fd[k] for k in ("mode", "devs", "cases", "done", "outcomes", "crashes_total")}
     rep.coverage["evaluations"] += fd["done"]
     rep.coverage["length_sweep_under_asan"] = {"objects": sweep["done"], "of": sweep["cases"]}
+    rep.coverage["standalone_containers_under_asan"] = absorb_containers(rep, "C13", tier, flavour="asan")
     rep.coverage["sanitizer"] = "g++ -fsanitize=address,undefined -D_GLIBCXX_ASSERTIONS; recoverable ASan errors are attributed to the transition that raised them, fatal ones through the worker breadcrumb"
     rep.assumptions = ["memory errors that ASan/UBSan(bounds,vptr)/libstdc++ assertions cannot see (e.g. intra-object overflow) are out of reach",
                        "every distinct state is additionally printed, saved, reloaded and destroyed under the sanitizer"]
@@ -846,6 +886,7 @@ def check_c14(tier, deadline):
     cov["memcheck"] = {"depth": vdepth, "states": vg["states"], "saves_under_memcheck": vg["probes"]["c14"]} if vg else None
     cov["exhaustive"] = cov["exhaustive"] and all(d["states"] == runs[0]["states"] for d in runs)
     rep.coverage = cov
+    rep.coverage["standalone_containers"] = absorb_containers(rep, "C14", tier)   # elements created by an indexed set past the end hold defined values
     rep.assumptions = ["freshly allocated heap bytes differ between MALLOC_PERTURB_ 0x55 and 0xAA, so a byte copied from uninitialised heap differs between the runs; stack-sourced garbage is visible to the memcheck pass only"]
     return rep.finish()
 
